@@ -22,6 +22,20 @@ import (
 type apath struct {
 	Root   ssa.Value
 	Fields []*types.Var
+	Via    []*types.Var // fields of locally visible objects the value was read out of on the way (resolved through their stores)
+}
+
+// through: the value was read from field f (as the unresolved tail of the path, or on the way).
+func (a apath) through(f *types.Var) bool {
+	if a.last() == f {
+		return true
+	}
+	for _, v := range a.Via {
+		if v == f {
+			return true
+		}
+	}
+	return false
 }
 
 func (a apath) last() *types.Var {
@@ -57,10 +71,15 @@ func dedupPaths(in []apath) []apath {
 outer:
 	for _, a := range in {
 		for _, b := range out {
-			if a.Root == b.Root && len(a.Fields) == len(b.Fields) {
+			if a.Root == b.Root && len(a.Fields) == len(b.Fields) && len(a.Via) == len(b.Via) {
 				same := true
 				for i := range a.Fields {
 					if a.Fields[i] != b.Fields[i] {
+						same = false
+					}
+				}
+				for i := range a.Via {
+					if a.Via[i] != b.Via[i] {
 						same = false
 					}
 				}
@@ -252,6 +271,14 @@ func (r *resolver) fieldOfAlloc(al *ssa.Alloc, fs []*types.Var, depth int, out *
 	// stores into al.f0 (composite literal or later assignment)
 	f0 := fs[0]
 	n := 0
+	start := len(*out)
+	defer func() {
+		for i := start; i < len(*out); i++ {
+			if len(fs) == 1 {
+				(*out)[i].Via = append(append([]*types.Var{}, (*out)[i].Via...), f0)
+			}
+		}
+	}()
 	for _, ref := range *al.Referrers() {
 		fa, ok := ref.(*ssa.FieldAddr)
 		if !ok || fieldOfAddr(fa) != f0 {
@@ -406,7 +433,7 @@ func (c *Ctx) fieldVal(v ssa.Value, f *types.Var) bool {
 	if f == nil {
 		return false
 	}
-	return c.allOrigins(v, func(a apath) bool { return a.last() == f })
+	return c.allOrigins(v, func(a apath) bool { return a.through(f) })
 }
 
 // constIntOf: v (projected by fields) is the same integer constant on every origin.
